@@ -23,9 +23,28 @@ notes = []
 for f in sorted((root / "design_notes").glob("C*.md")):
     notes.append(f.read_text().strip())
 asbuilt = "\n\n".join(notes)
+import ast
+rows = ["| property | theorems audited | not proved / correspondence-only (from the harness constant NOT_PROVED) |", "|---|---|---|"]
+for f in sorted((root / "harness").glob("c[0-9][0-9].py")):
+    pid = f.stem.upper()
+    items = []
+    try:
+        for node in ast.parse(f.read_text()).body:
+            if isinstance(node, ast.Assign) and any(getattr(t, "id", "") == "NOT_PROVED" for t in node.targets):
+                items = ast.literal_eval(node.value)
+    except Exception as e:
+        items = [f"(could not parse: {e})"]
+    n = "?"
+    ev = root / "evidence" / f"{pid}.json"
+    if ev.exists():
+        c = json.loads(ev.read_text())["coverage"]
+        n = f"{c.get('discharged', '?')}/{c.get('obligations', '?')}"
+    txt = "; ".join(str(i).replace("|", "\\|").replace("\n", " ") for i in items) or "–"
+    rows.append(f"| {pid} | {n} | {txt} |")
+notproved = "\n".join(rows)
 p = root / "DESIGN.md"
 s = p.read_text()
-for tag, body in (("findings", findings), ("seeded", seeded), ("asbuilt", asbuilt)):
+for tag, body in (("findings", findings), ("seeded", seeded), ("asbuilt", asbuilt), ("notproved", notproved)):
     pat = re.compile(rf"(<!-- BEGIN {tag} -->).*?(<!-- END {tag} -->)", re.S)
     assert pat.search(s), tag
     s = pat.sub(lambda mm, body=body: mm.group(1) + "\n" + body + "\n" + mm.group(2), s)
